@@ -70,6 +70,11 @@ double sol_number(Rng& rng, const SolGenOpts& o) {
                                   123456.7, 4503599627370497.5, 72057594037927945.0, 1e-5, 1.5e-10, 100, 1e100};
     return rng.pick(pool);
   }
+  if (o.awkward && rng.chance(0.15)) {   // binade boundaries: +-2^k and its two neighbours
+    double p = std::ldexp(1.0, (int)rng.range(-1074, 1023));
+    switch (rng.below(4)) { case 0: p = std::nextafter(p, 0.0); break; case 1: p = std::nextafter(p, INFINITY); break; default: break; }
+    return rng.chance(0.5) ? p : -p;
+  }
   if (o.awkward && rng.chance(0.25)) {
     for (;;) { uint64_t b = rng.next(); double d; memcpy(&d, &b, 8); if (std::isfinite(d)) return d; }
   }
